@@ -714,7 +714,9 @@ def hybrj(f, x0, jac, tol=None, verbose=False, maxiter=200, var_bounds=None):
             trust_region = D.ar_numpy.maximum(trust_region, 3 *  D.ar_numpy.linalg.norm(dx_gn))
         elif D.ar_numpy.max(gain) < 0.25:
             trust_region = trust_region * 0.5
-            success = success or trust_region <= xtol
+            if not success and trust_region <= xtol:
+                # the trust region has collapsed without convergence: stop and report the failure
+                break
         if success:
             if verbose:
                 Fn0 = D.ar_numpy.linalg.norm(F0)
